@@ -1160,7 +1160,10 @@ fn fam_cli_format_text(ctx: &mut Ctx) {
         let expect = format!("{}\n{}\n", want[0], want[1]);
         let of = format!("format={}", fmt);
         let a = super::c04::run_binary(&["* | json", "-o", &of], Some(&path));
-        let b = super::c04::run_binary(&["* | json", "--format", &fmt], Some(&path));
+        // a detached value that starts with `-` is read as an option by the argument parser
+        // (`--format '-{Code}'` → "unexpected argument '-{'"): such a string is passed attached
+        let attached = format!("--format={}", fmt);
+        let b = if fmt.starts_with('-') { super::c04::run_binary(&["* | json", &attached], Some(&path)) } else { super::c04::run_binary(&["* | json", "--format", &fmt], Some(&path)) };
         let key = format!("cli-format-text:{}:{}", i, fmt);
         match (a, b) {
             (Some(a), Some(b)) => {
